@@ -1,4 +1,5 @@
 import Ruint.Lemmas.FloatTryG
+import Ruint.Lemmas.FloatMsb
 
 /-!
 # C18 — float conversions round predictably and classify special values
@@ -168,5 +169,68 @@ example : tryFromF64 1024 0x7fefffffffffffff = .ok (2 ^ 1024 - 2 ^ 971)
     ∧ tryFromF64 1023 0x7fefffffffffffff = .tooLarge (2 ^ 1023 - 2 ^ 971) := by decide +kernel
 example : tryFromF64 64 1 = .ok 0 ∧ tryFromF32 128 0x7f7fffff = .ok (2 ^ 128 - 2 ^ 104) := by decide +kernel
 example : tryFromF64 8 0xc071230000000000 = .negative 0xee := by decide +kernel
+
+
+/-! ## `f64::from(&Uint)` / `f32::from(&Uint)`
+
+`toFloatV f v` is the conversion as a function of the value (`most_significant_bits` described on the
+value: `msbSpec`), `toFloat f limbs` is the same on the limb list as the code runs it (`msb`). A format is
+`Wide` when its mantissa fits 64 bits and `2^64` is finite — binary64 and binary32 both are
+(`b64_wide`, `b32_wide`). `p = f.mb + 1` is the precision (53 resp. 24), `L = bitLen v`,
+`k = L - p` the number of bits that do not fit, `lo = v / 2^k` the `p`-bit prefix:
+`lo·2^k ≤ v < (lo+1)·2^k` are the two neighbouring representable numbers. -/
+
+/-- **`to_float_faithful`** — for a value with at least `p` bits the result is `R·2^k` with `R = lo` or
+    `R = lo + 1` (one of the two representable neighbours of the exact value), `R = lo` when the value is
+    representable (exact), and it is `+∞` exactly when the chosen neighbour is `2^(bias+1)` (not finite),
+    which happens only for `v ≥ infThreshold f = 2^(bias+1) - 2^(bias-p)`, the first value that
+    round-to-nearest sends to infinity (`2^1024 - 2^970` for `f64`, `2^128 - 2^103` for `f32`). -/
+theorem to_float_faithful (f : Fmt) (hw : f.Wide) (v : ℕ) (hL : f.mb + 1 ≤ bitLen v) :
+    v / 2 ^ (bitLen v - (f.mb + 1)) * 2 ^ (bitLen v - (f.mb + 1)) ≤ v
+    ∧ v < (v / 2 ^ (bitLen v - (f.mb + 1)) + 1) * 2 ^ (bitLen v - (f.mb + 1))
+    ∧ ∃ R, (R = v / 2 ^ (bitLen v - (f.mb + 1)) ∨ R = v / 2 ^ (bitLen v - (f.mb + 1)) + 1)
+      ∧ (v % 2 ^ (bitLen v - (f.mb + 1)) = 0 → R = v / 2 ^ (bitLen v - (f.mb + 1)))
+      ∧ (R * 2 ^ (bitLen v - (f.mb + 1)) < 2 ^ (f.bias + 1) →
+          IsVal (decode f (toFloatV f v)) (R * 2 ^ (bitLen v - (f.mb + 1))))
+      ∧ (2 ^ (f.bias + 1) ≤ R * 2 ^ (bitLen v - (f.mb + 1)) →
+          toFloatV f v = f.infBits ∧ infThreshold f ≤ v) := by
+  have hv : 0 < v := by
+    rcases Nat.eq_zero_or_pos v with h | h
+    · subst h; rw [bitLen_zero] at hL; omega
+    · exact h
+  have hp : 0 < 2 ^ (bitLen v - (f.mb + 1)) := by positivity
+  refine ⟨Nat.div_mul_le_self _ _, ?_, toFloatV_top f hw v hv hL⟩
+  have := Nat.div_add_mod v (2 ^ (bitLen v - (f.mb + 1)))
+  have hm := Nat.mod_lt v hp
+  rw [Nat.add_mul, Nat.one_mul, Nat.mul_comm]
+  omega
+
+/-- values with fewer than `p` bits (and zero) convert exactly. -/
+theorem to_float_exact_small (f : Fmt) (hw : f.Wide) (v : ℕ) (hL : bitLen v < f.mb + 1) :
+    (v = 0 → toFloatV f v = 0) ∧ (0 < v → IsVal (decode f (toFloatV f v)) v) :=
+  ⟨fun h => by subst h; exact toFloatV_zero f hw.1, fun h => toFloatV_short f hw v h hL⟩
+
+/-- the conversion is monotone in the value (as bit patterns of non-negative floats, whose order is the
+    order of the floats; `+∞` is the largest). -/
+theorem to_float_monotone (f : Fmt) (hw : f.Wide) (v w : ℕ) (h : v ≤ w) : toFloatV f v ≤ toFloatV f w :=
+  toFloatV_mono f hw v w h
+
+/-- `most_significant_bits` as the code computes it on the limbs (`rposition`, `leading_zeros`, the two top
+    limbs fused) is the top-64-bits decomposition of the value, for every limb count. -/
+theorem most_significant_bits_spec (l : List ℕ) (hl : AllLt l) : msb l = msbSpec (val l) := msb_eq_spec l hl
+
+/-- hence the limb-level model the driver runs is the value-level function the theorems above are about. -/
+theorem to_float_limbs (f : Fmt) (bits : ℕ) (l : List ℕ) (hl : Canon bits l) :
+    toFloat f l = toFloatV f (val l) := by
+  unfold toFloat toFloatV; rw [msb_eq_spec l hl.2.1]
+
+/-- instances: binary64 and binary32. -/
+theorem to_f64_f32_wide : b64.Wide ∧ b32.Wide ∧ infThreshold b64 = 2 ^ 1024 - 2 ^ 970
+    ∧ infThreshold b32 = 2 ^ 128 - 2 ^ 103 := ⟨b64_wide, b32_wide, by decide +kernel, by decide +kernel⟩
+
+example : toFloatV b64 (2 ^ 64 - 1) = 0x43f0000000000000 ∧ toFloatV b64 (2 ^ 1024 - 2 ^ 970) = b64.infBits
+    ∧ toFloatV b64 (2 ^ 1024 - 2 ^ 970 - 1) = 0x7fefffffffffffff := by decide +kernel
+example : toFloat b64 [0, 0x0000000000000400, 0x8000000000000000] = toFloatV b64 (val [0, 0x400, 0x8000000000000000]) := by
+  decide +kernel
 
 end Ruint.C18
